@@ -74,7 +74,13 @@ pub fn parse_args(a: &[String]) -> Args {
 
 fn init_process(seed: u64, verbose: bool) {
 	ops::install_panic_hook(verbose);
-	alloc::start_watchdog(120);
+	// real-time hang detection per step, far above a step's normal time even on a
+	// loaded machine: decodes and single wallet calls take milliseconds, a C20 / C06 /
+	// C12 step holds a whole enumeration (dozens of executions from one snapshot)
+	alloc::start_watchdog(match std::env::var("GWSIM_PROP").ok().as_deref() {
+		Some("C20") | Some("C06") | Some("C12") => 1500,
+		_ => 300,
+	});
 	entropy::enable(seed);
 	hooks::install();
 }
@@ -94,6 +100,7 @@ fn cmd_run(a: &Args) -> i32 {
 	let seed: u64 = a.kv.get("seed").and_then(|s| s.parse().ok()).unwrap_or(1);
 	let thorough = a.kv.get("tier").map(|t| t == "thorough").unwrap_or(false);
 	let verbose = a.flags.contains(&"verbose".to_owned());
+	std::env::set_var("GWSIM_PROP", &prop_id);
 	init_process(seed, verbose);
 	let dir = format!("{}/gwsim-{}-{}", scratch_root(), std::process::id(), seed);
 	let mut run = Run::new(&prop_id, seed, thorough, &dir);
@@ -173,6 +180,7 @@ fn cmd_replay(a: &Args) -> i32 {
 			return 2;
 		}
 	};
+	std::env::set_var("GWSIM_PROP", &rf.property);
 	init_process(rf.seed, verbose);
 	let dir = format!("{}/gwsim-{}-r{}", scratch_root(), std::process::id(), rf.seed);
 	let mut run = Run::new(&rf.property, rf.seed, rf.tier == "thorough", &dir);
